@@ -26,6 +26,8 @@ func checkC07(c *Ctx) {
 	r075(c)
 	k1(c, "R07.6 pause-never-refuses")
 	r077(c, "R07.7 timeout-argument-agreement")
+	// a released request is forwarded only if the balancer it reads still has its rotation (shared with C09)
+	rRotationOnlyRefreshed(c, "R07.8 rotation-written-only-by-the-refresh")
 }
 
 // newPCModel builds the abstract model of PauseController.
